@@ -158,7 +158,7 @@ def ob_skeleton(k):
         if lit is None:
             b2 = sym_str(choose(3, 'b2l'), 'c', alphabet='a @\\n\n')        # incl. a RAW newline inside '...' / f'...' (deprecated but accepted: positions must still add up)
             lit = ("'" if kind == 2 else "f'") + b2 + "'"
-        ws = ['', ' ', ' \\\n ', ' # c\n '][choose(4, 'ws')]
+        ws = ['', ' ', ' \\\n ', ' # c\n ', ' \\\n\n ', ' \\\n  # c\n '][choose(6, 'ws')]       # incl. a continuation followed by an empty / comment-only line
         tmpl = [lambda: 'x = f(' + lit + ws + ', [1,' + ws + ' g(2)])\n',
                 lambda: 'x = [' + lit + ', 1]' + ws + '+ h(3)\ny = k()\n',
                 lambda: 'd = {' + "'f' : " + lit + ", 'g' : [1, 2, 3], 'h' : bar(1)}\n",
